@@ -7,6 +7,7 @@ estimator's output always lies in the range the parameter header can carry. This
 `public` requests execute against `decompress_deflate_stream`.
 -/
 import Preflate.Proofs.EstimateRange
+import Preflate.Proofs.DecodeBytes
 namespace Preflate
 
 /-- the complete parameter estimator, on any valid stream (in particular on whatever the parser
@@ -44,6 +45,38 @@ theorem public_bytes_chain (verify : Bool) (d : List UInt8) (r : StreamResult)
       decodeOps 0 (r.corr.map Op.kind) (VP8.readEvents bytes (evs.map (·.ctx))) = .ok (r.corr, 0, []) ∧
       recompressStream Chains.pred r.plain r.corr = .ok (d.take r.size) :=
   Proofs.public_bytes_chain verify d r h
+
+/-- AT THE REAL API TYPE (bytes in, bytes out): `decompressBytes` = `decompress_deflate_stream`
+    returning the correction BYTES (for verify = true the verification runs from the bytes, as in the
+    code), `recompressBytes` = `recompress_deflate_stream`: a demand-driven decoder that pulls every
+    value out of the VP8 reader over the correction bytes as the reconstruction asks for it
+    (Model/DecodeBytes.lean: `PredictionDecoderCabac` transcribed; the generic decoders instantiated at
+    the list source ARE the existing ones, `Proofs.decStreamS_list`). Whenever the split returns
+    Ok(plain, bytes, n, _), reconstruction from the bytes returns exactly D[..n]. (`hd`: the model bounds
+    the block loop, which is unbounded in the code, by 2^32 iterations.) -/
+theorem public_bytes_exact (verify : Bool) (d : List UInt8)
+    (plain : Array Nat) (bytes : Array UInt8) (n : Nat) (q : Params)
+    (h : decompressBytes Est.estimate Chains.pred verify d = .ok (plain, bytes, n, q))
+    (hd : d.length < 2 ^ 29) :
+    recompressBytes Chains.pred plain bytes = .ok (d.take n) :=
+  Proofs.public_bytes_exact verify d plain bytes n q h hd
+
+/-- both verify settings of the byte-level function return the same result -/
+theorem public_bytes_verify_same (d : List UInt8) (hd : d.length < 2 ^ 29)
+    (plain : Array Nat) (bytes : Array UInt8) (n : Nat) (q : Params) :
+    decompressBytes Est.estimate Chains.pred true d = .ok (plain, bytes, n, q) ↔
+    decompressBytes Est.estimate Chains.pred false d = .ok (plain, bytes, n, q) :=
+  Proofs.public_bytes_verify_same d hd plain bytes n q
+
+/-- the same for ANY estimator (a function of the parse result, in range on it) and ANY bounded
+    predictor family -/
+theorem recompressBytes_decompressBytes {H : Type} (est : Array Nat → List Block → R Params)
+    (mk : Params → Pred H) (hb : ∀ q, PredBounded (mk q)) (verify : Bool) (d : List UInt8)
+    (hest : ∀ p, parse d = .ok p → ∀ q, est p.plain p.blocks = .ok q → EstimatorRange q)
+    (plain : Array Nat) (bytes : Array UInt8) (n : Nat) (q : Params)
+    (h : decompressBytes est mk verify d = .ok (plain, bytes, n, q)) (hd : d.length < 2 ^ 29) :
+    recompressBytes mk plain bytes = .ok (d.take n) :=
+  Proofs.recompressBytes_decompressBytes est mk hb verify d hest plain bytes n q h hd
 
 /-- the level tables the model's estimator uses are the ones in the source now -/
 theorem level_tables_match_source :
